@@ -140,14 +140,51 @@ Variables (sch : scheme) (st : settings).
 Definition names_field (name : bytes) (i : nat) (t : ty) : Prop :=
   ident_text name /\ kw_free name /\ scheme_get sch name = Some (IdField i) /\ field_ty sch i = Some t.
 
+Definition names_fn (name : bytes) (i : nat) (def : fn_def) : Prop :=
+  ident_text name /\ kw_free name /\ scheme_get sch name = Some (IdFn i) /\ fn_of sch i = Some def.
+
+(* the rules an argument list obeys (FunctionCallExpr::lex_with_function): [*] only in the first argument, not more
+   arguments than parameters, each argument of the kind and type its position asks for ([check_param], the mirror
+   of SimpleFunctionDefinition / ConcatFunction::check_param), at least the mandatory ones at the end *)
+Definition arg_admitted (def : fn_def) (prev : list arg) (a : arg) : Prop :=
+  (Nat.ltb 0 (arg_map_each_count a) && negb (Nat.eqb (List.length prev) 0)) = false /\
+  (negb (fn_variadic_same def) && Nat.leb (List.length (fn_params def) + List.length (fn_opt_params def)) (List.length prev)) = false /\
+  exists t, ty_arg sch a = Some t /\ check_param sch def prev a t = PcOk.
+Definition arity_reached (def : fn_def) (acc : list arg) : Prop :=
+  Nat.ltb (List.length acc) (if fn_variadic_same def then 2%nat else List.length (fn_params def)) = false.
+
 (* `lhs in $name`: the scheme must have a list for the type *)
 Inductive cmp_text_s : ty -> bytes -> bool -> bytes -> cmpop -> Prop :=
 | CS_plain t sp sym lit c : cmp_text t sp sym lit c -> cmp_text_s t sp sym lit c
 | CS_in_list t name li : cmp3 t = true -> good_list_name name -> list_index sch t = Some li ->
     cmp_text_s t (bs "in") false (36 :: name) (CInList li name).
 
-(* K: false = plain boolean, true = boolean array *)
-Inductive GSimple : bool -> N -> bytes -> lexpr -> Prop :=
+(* left-hand sides: a field or a function call, followed by index accesses.  Arguments (of the forms
+   described so far): a quoted byte string, a left-hand side, or a logical expression that begins with
+   `(`, `not` or `!`.   K: false = plain boolean, true = boolean array *)
+Inductive GLhs : N -> bytes -> iexpr -> ty -> Prop :=
+| LH_field d name i t0 itxt idx t :
+    names_field name i t0 -> idx_text t0 itxt idx t -> GLhs d (name ++ itxt) (IField i idx) t
+| LH_call d name i def ws1 atxt all tret itxt idx t :
+    names_fn name i def -> layout_ws ws1 -> d < st_max_depth st ->
+    GArgs (d + 1) def [] atxt all -> ty_call sch i (args_of_list all) = Some tret -> idx_text tret itxt idx t ->
+    GLhs d (name ++ ws1 ++ 40 :: atxt ++ itxt) (ICall i (args_of_list all) idx) t
+(* the text after `(`: arguments separated by commas, then `)`; [acc] = the arguments read so far *)
+with GArgs : N -> fn_def -> list arg -> bytes -> list arg -> Prop :=
+| GA_end d def acc ws : layout_ws ws -> arity_reached def acc -> GArgs d def acc (ws ++ [41]) acc
+| GA_first d def ws atxt a rest all :
+    layout_ws ws -> GArg d atxt a -> arg_admitted def [] a -> GArgs d def [a] rest all ->
+    GArgs d def [] (ws ++ atxt ++ rest) all
+| GA_next d def acc ws0 ws atxt a rest all :
+    acc <> [] -> layout_ws ws0 -> layout_ws ws -> GArg d atxt a -> arg_admitted def acc a ->
+    GArgs d def (acc ++ [a]) rest all ->
+    GArgs d def acc (ws0 ++ 44 :: ws ++ atxt ++ rest) all
+with GArg : N -> bytes -> arg -> Prop :=
+| AR_quoted d l : styles_ok l -> GArg d (print_quoted l) (ALit (RBytes (map snd l) FQuoted))
+| AR_lhs d t ie ty : GLhs d t ie ty -> GArg d t (AIndex ie)
+| AR_logical K d t le :
+    GLogical K d t le -> (exists x, t = 40 :: x \/ t = 33 :: x \/ t = bs "not" ++ x) -> GArg d t (ALogical le)
+with GSimple : bool -> N -> bytes -> lexpr -> Prop :=
 | GS_istrue K d name i t0 itxt idx t :
     names_field name i t0 -> idx_text t0 itxt idx t -> istrue_class idx t = Some K ->
     GSimple K d (name ++ itxt) (EComparison (IField i idx) CIsTrue)
@@ -156,6 +193,14 @@ Inductive GSimple : bool -> N -> bytes -> lexpr -> Prop :=
     layout_ws ws1 -> layout_ws ws2 -> (sym = true \/ ws1 <> []) ->
     cmp_text_s t sp sym lit c -> tok_start lit -> tok_end lit ->
     GSimple K d (name ++ itxt ++ ws1 ++ sp ++ ws2 ++ lit) (EComparison (IField i idx) c)
+| GS_istrue_lhs K d ltxt ie t :
+    GLhs d ltxt ie t -> istrue_class (iexpr_idx ie) t = Some K ->
+    GSimple K d ltxt (EComparison ie CIsTrue)
+| GS_cmp_lhs K d ltxt ie t ws1 sp sym ws2 lit c :
+    GLhs d ltxt ie t -> K = Nat.ltb 0 (map_each_count (iexpr_idx ie)) ->
+    layout_ws ws1 -> layout_ws ws2 -> (sym = true \/ ws1 <> []) ->
+    cmp_text_s t sp sym lit c -> tok_start lit -> tok_end lit ->
+    GSimple K d (ltxt ++ ws1 ++ sp ++ ws2 ++ lit) (EComparison ie c)
 | GS_not K d sp ws t a :
     In sp [bs "not"; bs "!"] -> layout_ws ws -> d < st_max_depth st -> GSimple K (d + 1) t a ->
     GSimple K d (sp ++ ws ++ t) (ENot a)
